@@ -391,6 +391,14 @@ Section Laws.
     rewrite gscale_zero, gadd_zero_r, (m_one _ _ _ ML). reflexivity.
   Qed.
 
+  (* the same for [cand], i.e. for the variant the code now has (switch code_pervar_delta_rescaled = true) *)
+  Theorem pervar_delta_one_current ds cavd last v nw l :
+    get v last = Some l -> qlookup v ds = Q2Qc 1 ->
+    gvalid (full_cand G gadd gopp nw (get v cavd)) = true ->
+    cand (DPerVar ds) cavd last v nw = (full_cand G gadd gopp nw (get v cavd), true)
+    /\ cand_valid (cand (DPerVar ds) cavd last v nw) = true.
+  Proof. exact (pervar_delta_one_fixed ds cavd last v nw l). Qed.
+
   (* ---------- sequences of updates ---------- *)
   Definition run_steps (steps : list (nat * delta * mf)) (st : state) : state :=
     fold_left (fun s x => step (fst (fst x)) (snd (fst x)) (snd x) s) steps st.
